@@ -170,7 +170,7 @@ PROPS = {
         level_note="Trusted: internal/model; crash model as in C04.",
     ),
     "C07": dict(
-        pkg="c07", level="exploration",
+        pkg="c07", level="exploration", journal_cases=True,
         tests=[T("TestC07", Q(24, timeout=300, shards=4, shrinktime="30s"), Q(120, timeout=1500, shards=16, shrinktime="90s"))],
         rule="Each case: a leader table with 0-60 generated pairs (values empty..3 KB; thorough also 256 KiB-2 MiB), a target server started with a generated MaxInMemLogSize (0 = unlimited, 1 MiB, 6 MiB, or "
              "2*sum(first j record sizes)+slack so that the half-size batch threshold falls on record j, raised to twice the biggest record so the setting is operable), a target table with 0-5 unrelated pre-restore pairs; "
@@ -184,7 +184,7 @@ PROPS = {
         level_note="Trusted: model map; engines are single-node.",
     ),
     "C05": dict(
-        pkg="c05", level="exploration",
+        pkg="c05", level="exploration", journal_cases=True,
         tests=[T("TestC05", Q(30, timeout=400, shards=4, shrinktime="30s"), Q(100, timeout=1500, shards=16, shrinktime="90s")),
                T("TestC05Tables", Q(40, timeout=300, shrinktime="20s"), Q(200, timeout=900, shards=2, shrinktime="60s"))],
         rule="TestC05: a real leader engine and a real follower engine (in-process, single-node clusters) wired like cmd/leader.go / cmd/follower.go with three Log servers (message-size limits 256 B, 4 KiB, 4 MiB; odd shards run "
@@ -200,7 +200,7 @@ PROPS = {
         level_note="Trusted: model; the worker loop body is re-stated in the verif hook (replication/export_verif.go Poll).",
     ),
     "C10": dict(
-        pkg="c10", level="exploration",
+        pkg="c10", level="exploration", journal_cases=True,
         tests=[T("TestC10", Q(4000), Q(20000, timeout=900, shards=12, shrinktime="60s")),
                T("TestC10Conc", Q(500, timeout=300), Q(3000, timeout=1200, shards=4, shrinktime="60s"))],
         rule="TestC10 (deterministic): 2-3 real state-machine replicas behind an in-memory raft stand-in (shared log, per-replica lag controlled by the case, generated grouping of entries into Update calls); 2-30 operations by clients "
@@ -231,7 +231,7 @@ PROPS = {
         level_note="Trusted: the gate scheduler (one runnable caller at a time); the real LFSM implements the CAS.",
     ),
     "C14": dict(
-        pkg="c14", level="exploration",
+        pkg="c14", level="exploration", journal_cases=True,
         tests=[T("TestC14", Q(16, timeout=300, shards=4, shrinktime="30s"), Q(80, timeout=1500, shards=16, shrinktime="90s")),
                T("TestC14Odd", Q(10, timeout=200, shrinktime="10s"), Q(60, timeout=600, shards=2, shrinktime="30s")),
                T("TestC14Race", Q(10000), Q(100000, timeout=900, shards=4)),
@@ -249,7 +249,7 @@ PROPS = {
         level_note="Trusted: the catalogue model; gate scheduler.",
     ),
     "C11": dict(
-        pkg="c11", level="exploration",
+        pkg="c11", level="exploration", journal_cases=True,
         tests=[T("TestC11", Q(4, timeout=300, shards=4, shrinktime="5s"), Q(40, timeout=1500, shards=16, shrinktime="20s")),
                T("TestC11RYW", Q(25, timeout=300, shards=2, shrinktime="20s"), Q(120, timeout=1500, shards=8, shrinktime="60s"))],
         rule="TestC11: timed scenarios on the real storage.IndexNotificationQueue (its own Run goroutine, hard-coded 1 s sweep): 2-12 events spread over 3.3 s on two tables - add(revision 0-6, optionally cancelled 1-2500 ms later), "
